@@ -1,8 +1,35 @@
 package main
 
 import (
+	"context"
+	"encoding/json"
+	"os"
+	"os/exec"
+	"path/filepath"
 	"strings"
+	"time"
 )
+
+// runHarness injects /verif/harness/<file> into <repo>/<pkg> as an in-package test via `go test -overlay`
+// (nothing is written into the repository) and runs the named test against the real code.
+func runHarness(repo, pkg, file, test string, env map[string]string) (bool, string) {
+	dir := scratchDir()
+	defer os.RemoveAll(dir)
+	ov := map[string]map[string]string{"Replace": {filepath.Join(repo, pkg, "zz_tvc_harness_test.go"): filepath.Join(verifDir(), "harness", file)}}
+	b, _ := json.Marshal(ov)
+	ovf := filepath.Join(dir, "ov.json")
+	os.WriteFile(ovf, b, 0o644)
+	ctx, cancel := context.WithTimeout(context.Background(), 300*time.Second)
+	defer cancel()
+	cmd := exec.CommandContext(ctx, "go", "test", "-overlay", ovf, "-tags", "default_build", "-vet=off", "-count=1", "-timeout", "240s", "-v", "-run", "^"+test+"$", "./"+pkg+"/")
+	cmd.Dir = repo
+	cmd.Env = append(os.Environ(), "GOFLAGS=-mod=mod", "GOPROXY=off")
+	for k, v := range env {
+		cmd.Env = append(cmd.Env, k+"="+v)
+	}
+	out, err := cmd.CombinedOutput()
+	return err == nil, string(out)
+}
 
 // parseModel extracts the (get-value ...) answers for the function inputs from the solver output.
 func parseModel(o *Obligation) map[string]string {
